@@ -204,7 +204,8 @@ fn set_actor(t: &mut SupplyTrace, which: usize, exit: ExitSpec, ops: Vec<FsOp>, 
         let big = !noutf8 && (ops.len() + which) % 2 == 1 && matches!(exit, ExitSpec::Code(0) | ExitSpec::Code(2));
         i.actor.exit = exit;
         i.actor.ops = ops;
-        i.actor.stdout = if noutf8 { vec![0xff, 0xfe, 0x00, 0xc3] } else if big { vec![b'o'; 180_000] } else { b"inspected\n".to_vec() };
+        // (text with multi-byte characters: some read of the pipe ends inside a character)
+        i.actor.stdout = if noutf8 { vec![0xff, 0xfe, 0x00, 0xc3] } else if big { "\u{4e16}\u{754c}x\u{e9}".repeat(180_000 / 9 + which).into_bytes() } else { b"inspected\n".to_vec() };
         i.actor.stderr = if big { vec![b'e'; 120_000] } else { vec![] };
     }
 }
